@@ -96,6 +96,16 @@ fn gen_text(rng: &mut Rng, maxlen: u64) -> Vec<u8> {
     t.push(b'$');
     t
 }
+/// texts with one or several sentinels, the sentinel byte not always '$' (it only has to be the smallest symbol)
+fn gen_text_multi(rng: &mut Rng, maxlen: u64) -> Vec<u8> {
+    let alpha: &[u8] = match rng.below(3) { 0 => b"ab", 1 => b"ACGT", _ => b"abcde" };
+    let sent = *rng.pick(&[b'$', b'#', 0u8, b'!', b'$']);
+    let n = rng.below(maxlen) as usize;
+    let mut t = rng.bytes(n, alpha);
+    if rng.below(2) == 0 { for x in t.iter_mut() { if rng.below(9) == 0 { *x = sent; } } }
+    t.push(sent);
+    t
+}
 
 pub fn search(seed: u64, budget: &Budget, thorough: bool, which: &str) -> (u64, Option<(String, String)>) {
     let mut tried = 0u64;
@@ -111,6 +121,17 @@ pub fn search(seed: u64, budget: &Budget, thorough: bool, which: &str) -> (u64, 
                     if let Err(e) = check_tables(&t, k) { return (tried, Some((format!("what=tables k={} text={}", k, hex(&t)), e))); }
                 }
             }
+            if which == "C05" && len <= 5 {
+                // the sentinel need not be '$': the same text ended (and once interrupted) by '#'
+                let mut t2: Vec<u8> = t[..len].to_vec();
+                if len >= 3 { t2[len / 2] = b'#'; }
+                t2.push(b'#');
+                let p = vec![b'a'];
+                if t2.contains(&b'a') {
+                    tried += 1;
+                    if let Err(e) = check_search(&t2, 3, &p) { return (tried, Some((format!("what=search k=3 text={} pat={}", hex(&t2), hex(&p)), e))); }
+                }
+            }
             if which == "C05" {
                 for pl in 1..=3usize { for pb in 0..(1u32 << pl) {
                     let p: Vec<u8> = (0..pl).map(|i| b'a' + ((pb >> i) & 1) as u8).collect();
@@ -124,7 +145,7 @@ pub fn search(seed: u64, budget: &Budget, thorough: bool, which: &str) -> (u64, 
     let rounds = if thorough { 100000 } else { 1500 };
     for _ in 0..rounds {
         if !budget.left() { break; }
-        let t = gen_text(&mut rng, if thorough { 300 } else { 150 });
+        let t = if which == "C05" { gen_text_multi(&mut rng, if thorough { 300 } else { 150 }) } else { gen_text(&mut rng, if thorough { 300 } else { 150 }) };
         let k = *rng.pick(&[1u32, 2, 3, 4, 7, 8, 16, 32, 64, 65, 66, 100, 129, 200, 301]);
         tried += 1;
         if which == "C04" {
@@ -132,7 +153,8 @@ pub fn search(seed: u64, budget: &Budget, thorough: bool, which: &str) -> (u64, 
         } else {
             let pl = 1 + rng.below(6) as usize;
             let p = if rng.below(2) == 0 && t.len() > pl + 1 { let s = rng.below((t.len() - 1 - pl) as u64) as usize; t[s..s + pl].to_vec() } else { rng.bytes(pl, b"abACGT") };
-            let p: Vec<u8> = p.into_iter().filter(|c| t.contains(c)).collect();
+            let sent = t[t.len() - 1];
+            let p: Vec<u8> = p.into_iter().filter(|c| t.contains(c) && *c != sent).collect();
             if p.is_empty() { continue; }
             if let Err(e) = check_search(&t, k, &p) { return (tried, Some((format!("what=search k={} text={} pat={}", k, hex(&t), hex(&p)), e))); }
         }
